@@ -19,6 +19,7 @@ import (
 	"time"
 
 	"github.com/d5/tengo/v2"
+	"github.com/d5/tengo/v2/parser"
 	"verifharness/lib"
 )
 
@@ -161,6 +162,141 @@ func profile(r *lib.RNG) lib.Profile {
 	return p
 }
 
+// ---- fragment F0: the compiler model proved correct in Tengo.Props.C01 ----
+
+func f0Expr(r *lib.RNG, vars []string, d int) string {
+	if d <= 0 || r.Chance(1, 4) {
+		if len(vars) > 0 && r.Chance(2, 3) {
+			return lib.Pick(r, vars)
+		}
+		return lib.Pick(r, []string{"0", "1", "2", "7", "-3", "true", "false", "undefined", "1.5", "'a'", "9223372036854775807"})
+	}
+	switch r.Intn(9) {
+	case 0, 1, 2:
+		op := lib.Pick(r, []string{"+", "-", "*", "/", "%", "&", "|", "^", "&^", "<<", ">>", "<", "<=", ">", ">=", "==", "!="})
+		return "(" + f0Expr(r, vars, d-1) + " " + op + " " + f0Expr(r, vars, d-1) + ")"
+	case 3:
+		return "(" + lib.Pick(r, []string{"-", "!", "^", "+"}) + "(" + f0Expr(r, vars, d-1) + "))"
+	case 4, 5:
+		return "(" + f0Expr(r, vars, d-1) + lib.Pick(r, []string{" && ", " || "}) + f0Expr(r, vars, d-1) + ")"
+	case 6, 7:
+		return "(" + f0Expr(r, vars, d-1) + " ? " + f0Expr(r, vars, d-1) + " : " + f0Expr(r, vars, d-1) + ")"
+	}
+	return f0Expr(r, vars, d-1)
+}
+
+func f0Stmts(r *lib.RNG, vars *[]string, n, depth int, ind string, sb *strings.Builder, next *int) {
+	for i := 0; i < n; i++ {
+		switch k := r.Intn(7); {
+		case k <= 1 || len(*vars) == 0:
+			*next++
+			name := fmt.Sprintf("g%d", *next)
+			fmt.Fprintf(sb, "%s%s := %s\n", ind, name, f0Expr(r, *vars, 3))
+			*vars = append(*vars, name)
+		case k == 2:
+			fmt.Fprintf(sb, "%s%s = %s\n", ind, lib.Pick(r, *vars), f0Expr(r, *vars, 3))
+		case k == 3:
+			if r.Bool() {
+				fmt.Fprintf(sb, "%s%s %s %s\n", ind, lib.Pick(r, *vars), lib.Pick(r, []string{"+=", "-=", "*=", "|=", "<<="}), f0Expr(r, *vars, 2))
+			} else {
+				fmt.Fprintf(sb, "%s%s%s\n", ind, lib.Pick(r, *vars), lib.Pick(r, []string{"++", "--"}))
+			}
+		case k == 4:
+			fmt.Fprintf(sb, "%s%s\n", ind, f0Expr(r, *vars, 3))
+		default:
+			if depth <= 0 {
+				continue
+			}
+			saved := len(*vars)
+			hdr := "if "
+			if r.Chance(1, 5) {
+				*next++
+				name := fmt.Sprintf("g%d", *next)
+				hdr += name + " := " + f0Expr(r, *vars, 2) + "; "
+				*vars = append(*vars, name)
+			}
+			fmt.Fprintf(sb, "%s%s%s {\n", ind, hdr, f0Expr(r, *vars, 2))
+			inner := len(*vars)
+			f0Stmts(r, vars, r.Intn(3), depth-1, ind+"\t", sb, next)
+			*vars = (*vars)[:inner]
+			for r.Chance(1, 4) {
+				fmt.Fprintf(sb, "%s} else if %s {\n", ind, f0Expr(r, *vars, 2))
+				f0Stmts(r, vars, r.Intn(3), depth-1, ind+"\t", sb, next)
+				*vars = (*vars)[:inner]
+			}
+			if r.Bool() {
+				fmt.Fprintf(sb, "%s} else {\n", ind)
+				f0Stmts(r, vars, r.Intn(3), depth-1, ind+"\t", sb, next)
+			}
+			fmt.Fprintf(sb, "%s}\n", ind)
+			*vars = (*vars)[:saved]
+		}
+	}
+}
+
+// checkF0 compares the compiler model of fragment F0 with the real compiler (byte for byte), and the
+// F0 machine with the real VM (dispatch count, final globals by index).
+func checkF0(src string) {
+	if drv == nil {
+		return
+	}
+	if _, _, perr := lib.ParseSource("(main)", []byte(src)); perr != nil {
+		res.Dist("f0-parse-error")
+		return
+	}
+	c, err := lib.CompileSource([]byte(src), lib.CompileOpts{})
+	ast := lib.ASTDumper{}.File(c2file(src))
+	ans, aerr := drv.Ask(lib.L("f0", ast))
+	if aerr != nil {
+		fatal(aerr)
+	}
+	res.ModelLines++
+	if err != nil {
+		// a compile error (e.g. redeclaration) is outside the fragment: the model must say so
+		res.Count("f0", src, false)
+		if ans != "unsupported" {
+			res.Disagree(lib.Disagreement{Stream: "f0", Input: replayInput{src}, Model: clip(ans, 300), Impl: "compile error: " + err.Error()})
+		}
+		return
+	}
+	if ans == "unsupported" {
+		res.Skipped++
+		res.Dist("f0-unsupported")
+		return
+	}
+	steps := 0
+	out := lib.RunBytecode(c, lib.RunOpts{Probe: func(v *tengo.VM, fn *tengo.CompiledFunction, ip, sp, bp, fi int, a int64) { steps++ }})
+	impl := "ok " + lib.Hex(c.BC.MainFunction.Instructions) + " " + lib.N(len(c.BC.Constants)) + " " + lib.N(steps)
+	if out.Err != "" || out.Panic != "" {
+		impl += " err"
+	} else {
+		impl += " done"
+		for _, v := range out.Slots {
+			if v == "nil" {
+				v = "u" // a slot of a branch not taken: the model's globals start as undefined
+			}
+			impl += " " + v
+		}
+	}
+	// the model prints every global index it allocated; trailing never-written slots read `u`
+	got := strings.TrimRight(strings.TrimSuffix(ans, " "), " ")
+	for strings.HasSuffix(got, " u") && len(got) > len(impl) {
+		got = strings.TrimSuffix(got, " u")
+	}
+	res.Count("f0", src, len(c.BC.MainFunction.Instructions) > 20)
+	if got != impl {
+		res.Disagree(lib.Disagreement{Stream: "f0", Input: replayInput{src}, Model: clip(ans, 600), Impl: clip(impl, 600)})
+	}
+}
+
+func c2file(src string) *parser.File {
+	f, _, err := lib.ParseSource("(main)", []byte(src))
+	if err != nil {
+		return &parser.File{}
+	}
+	return f
+}
+
 func main() {
 	f := lib.ParseFlags()
 	res = lib.NewResult("C01", f)
@@ -197,6 +333,16 @@ func main() {
 				res.Distribution["feat:"+k] += v
 			}
 		}
+	}
+	// fragment F0: byte-identical compile + lock-step run against the proved model
+	nf := f.Scale(1500, 40000)
+	for i := 0; i < nf; i++ {
+		r := rng.Fork()
+		var sb strings.Builder
+		var vars []string
+		next := 0
+		f0Stmts(r, &vars, 2+r.Intn(8), 3, "", &sb, &next)
+		checkF0(sb.String())
 	}
 	res.Write(f.Out)
 }
